@@ -83,6 +83,9 @@ type taskCompletion struct {
 type restartNode struct {
 	pid      *PID
 	children []*restartNode
+	// restarts is the actor's restart counter when the subtree was snapshotted:
+	// the Shutdown embedded in a restart runs reset(), which zeroes the counter
+	restarts int64
 }
 
 // PID is the sole actor reference in GoAkt. It is location-transparent:
@@ -3546,7 +3549,7 @@ func (pid *PID) buildChildOptions(config *spawnConfig) []pidOption {
 }
 
 func buildRestartSubtree(root *PID, tree *tree) *restartNode {
-	rootNode := &restartNode{pid: root}
+	rootNode := &restartNode{pid: root, restarts: root.restartCount.Load()}
 	descendants := tree.descendants(root)
 	if len(descendants) == 0 {
 		return rootNode
@@ -3555,7 +3558,7 @@ func buildRestartSubtree(root *PID, tree *tree) *restartNode {
 	nodes := make(map[string]*restartNode, len(descendants))
 	for _, descendant := range descendants {
 		if descendant.IsRunning() || descendant.IsSuspended() {
-			nodes[descendant.ID()] = &restartNode{pid: descendant}
+			nodes[descendant.ID()] = &restartNode{pid: descendant, restarts: descendant.restartCount.Load()}
 		}
 	}
 	if len(nodes) == 0 {
@@ -3651,7 +3654,7 @@ func restartSubtree(ctx context.Context, node *restartNode, parent *PID, tree *t
 	pid.setState(suspendedState, false)
 	pid.startPassivation()
 
-	pid.restartCount.Inc()
+	pid.restartCount.Store(node.restarts + 1)
 	pid.fireSystemMessage(ctx, new(PostStart))
 	if pid.eventsStream != nil {
 		pid.eventsStream.Publish(eventsTopic, NewActorRestarted(pid.Path()))
